@@ -683,13 +683,15 @@ class Analysis:
             if opn.endswith('WithOverflow'):
                 f = self.fresh_for_ty(st, rv.get('int'), 'T%d_%d' % (b, l))
                 return ('tup', f) if f is not None else None
-            if base == 'BitAnd' and (op_const(rv['r']) is not None or op_const(rv['l']) is not None):
-                mask = op_const(rv['r']) if op_const(rv['r']) is not None else op_const(rv['l'])
+            def cval(p_):
+                return int(p_.get((), 0)) if p_ is not None and not [m for m in p_ if m != ()] else None
+            if base == 'BitAnd' and (cval(c) is not None or cval(a) is not None):
+                mask = cval(c) if cval(c) is not None else cval(a)
                 if mask >= 0:
                     name = 'B%d_%d' % (b, l)
                     self.kill_atom(st, name)
                     at = self.atom(name, None, 0, mask)
-                    other = a if op_const(rv['r']) is not None else c
+                    other = a if cval(c) is not None else c
                     if other is not None:
                         st.add(padd(at, other, -1))      # x & m <= x   (x unsigned)
                     if mask > 0:
@@ -711,6 +713,12 @@ class Analysis:
                 return at
             return self.fresh_for(st, l, 'O%d_' % b)
         if k == 'un':
+            if rv['op'] == 'Not':
+                p = self.ipoly(st, rv['x'])
+                tb = int_bits(self.local_ty(l))
+                if p is not None and tb and not tb[1] and not [m for m in p if m != ()]:
+                    cv = int(p.get((), 0))
+                    return ('i', const((~cv) & MAXV[tb[0]]))
             if rv['op'] == 'PtrMetadata':
                 v = self.operand(st, rv['x'])
                 if v is not None and v[0] in ('slice', 'vec'):
@@ -1116,6 +1124,12 @@ class Analysis:
         for s_ in subs:
             phis |= set(s_)
         visible = self.visible_atoms(new, phis)
+        if DEBUG and B == int(os.environ.get('RELINV_JOIN', '-1')):
+            import sys as _s
+            for i, p in enumerate(preds):
+                _s.stderr.write('   join %d visit %d pred %d: %s | vacuous %s\n' % (B, visit, i, {self.named[l]: (v[0], v[1] if v[0] == 'opt' else '', pshow(v[2]) if v[0] == 'opt' and v[2] is not None else None)
+                                                                                 for l, v in p.vals.items() if self.named.get(l) in ('line', 'prevline')},
+                                                                               [a for a, x in subs[i].items() if x is None]))
         acc = [[] for _ in preds]
         for k, f in sorted(cands.items(), key=lambda kv: (max([len(m) for m in kv[1]] + [0]), len(kv[1]), kv[0])):
             at = atoms_of(f)
